@@ -1,9 +1,14 @@
 """Two-output plugin feature used by checks/c06.py (loaded with dclab.load_plugin_feature)."""
+import numpy as np
+
 
 
 def compute(rtdc_ds):
     # depends on two *computed* features (area_um <- pixel size, time <- frame rate) without naming their
     # configuration keys itself: a change of those keys reaches this feature only through the upstream features
+    if np.any(np.asarray(rtdc_ds["tmp_c06"]) < 0):
+        # (a recipe that refuses invalid input: the computation fails, the feature stays "available")
+        raise ValueError("tmp_c06 must not be negative")
     a = rtdc_ds["circ"] / rtdc_ds["area_um"] + rtdc_ds["time"]
     b = rtdc_ds["circ"] * rtdc_ds["tmp_c06"]
     return {"c06_a": a, "c06_b": b}
